@@ -96,10 +96,12 @@ def check_call(cfg, call):
         else:
             if tname != "OpError":
                 v.append(("c04.exception-type", f"raised type {tname}, original OpError"))
-            if tb is None or not tb[0] or tb[1] != 1:
+            raised_n = sum(1 for o in call.ops if o.obj == last.obj)
+            if tb is None or not tb[0] or tb[1] != raised_n:
                 v.append(("c04.traceback",
-                          f"traceback of the re-raised exception does not end in the operation's "
-                          f"raise site exactly once: {tb}"))
+                          f"traceback of the re-raised exception must end in the operation's raise "
+                          f"site and contain it {raised_n} time(s) (once per raise of that object): "
+                          f"(innermost is raise site, count) = {tb}"))
         return v
     # result-caused stop or deferral: RetryExhaustedError describing the final attempt
     if tname != "RetryExhaustedError" or det is None:
